@@ -32,6 +32,22 @@ def config(name):
     raise KeyError(name)
 
 
+def addpos_config(name):
+    """scopes of LwAddPos (the positional add algorithm refined against the abstract Add)"""
+    base = dict(MaxAnc=4, HeraldNs={0, 1}, TmplLoss=False)
+    if name == "two_heralds":        # both declaration orders and every (in, out) pair of two heralds on the 3-line template, two additions
+        return dict(base, PNu=4, TNu=(3, 2), MaxLen=4, AddPairs={(1, 2), (1, 3)}, MaxHer=(0, 2, 1), MaxAdds=2)
+    if name == "nested":             # template(2) into template(3) into the parent
+        return dict(base, PNu=3, TNu=(3, 2), MaxLen=4, AddPairs=PAIRS3, MaxHer=(0, 1, 1), MaxAdds=3)
+    if name == "full_len4":          # thorough: everything of the two above at once on a 4-mode parent
+        return dict(base, PNu=4, TNu=(3, 2), MaxLen=4, AddPairs=PAIRS3, MaxHer=(0, 2, 1), MaxAdds=3)
+    if name == "deep":               # -simulate only: three heralds, three additions, probes
+        return dict(base, PNu=4, TNu=(3, 2), MaxLen=7, AddPairs=PAIRS3, MaxHer=(0, 2, 1), MaxAdds=3)
+    if name == "deep_wide":          # -simulate only: a 5-line template with three heralds
+        return dict(base, PNu=4, TNu=(5, 3), MaxLen=8, AddPairs=PAIRS3, MaxHer=(0, 3, 1), MaxAdds=3)
+    raise KeyError(name)
+
+
 PROPS_S = ["FrameProp", "RejectFrame", "AncillaPrivate"]
 PROPS_N = PROPS_S + ["UnitaryStep", "SemAgreesStep"]
 
@@ -71,6 +87,14 @@ def run(tier):
                  {"scenario": "tmpl", "numeric": False, "pnu": 4, "tnu": (5, 3), "tmpl_loss": False}, nontrivial_fn=onto_ancilla)
     cc.sim_phase(chk, PID, "A1_ublock", config("A1_ublock"), MINE, 9000 if th else 1500, 9,
                  {"scenario": "tmpl", "numeric": False, "pnu": 4, "tnu": (3, 3), "tmpl_loss": "u"}, nontrivial_fn=onto_ancilla)
+    pctx = {"scenario": "tmpl", "numeric": False, "pnu": 4, "tnu": (3, 2), "tmpl_loss": False}
+    cc.addpos_phase(chk, PID, "addpos_two_heralds", addpos_config("two_heralds"), MINE, 1.0 if th else 0.02, 8000 if th else 1200,
+                    addpos_config("deep"), 8, pctx, nontrivial_fn=onto_ancilla)
+    cc.addpos_phase(chk, PID, "addpos_nested", addpos_config("nested"), MINE, 1.0 if th else 0.02, 8000 if th else 800,
+                    addpos_config("deep_wide"), 9, dict(pctx, pnu=3), nontrivial_fn=onto_ancilla,
+                    variants=("unpinned", "nointcount"))      # "nocascade" needs two heralds on one sub-circuit: refuted in the scope above
+    if th:
+        cc.addpos_phase(chk, PID, "addpos_full_len4", addpos_config("full_len4"), MINE, 0.2, 0, None, 0, pctx, nontrivial_fn=onto_ancilla)
     cc.script_phase(chk, PID, "findings", cc.load_corpus(PID), MINE)
     cc.repo_tests_phase(chk, PID, MINE, ["tests/sdk/circuit_test.py"] + (["tests/qubit", "tests/interferometers", "tests/sdk/display_test.py", "tests/tomography"] if th else []))
     cc.trace_phase(chk, PID, "wiring_ring", 2400 if th else 400, "wiring", MINE, numeric=True)
